@@ -241,16 +241,19 @@ Proof.
   apply N.eqb_eq in H. exact H.
 Qed.
 
-Lemma wf_pieces m : forall q, quote_state q -> wf_from q m = true ->
-  pieces (q, false) (text_of m) = ([text_of m], [], q0).
+Lemma wf_pieces m : forall q esc, quote_state q -> wf_from q esc m = true ->
+  pieces (q, esc) (text_of m) = ([text_of m], [], q0).
 Proof.
-  induction m as [|c r IH]; intros q Hq H; [discriminate|].
+  induction m as [|c r IH]; intros q esc Hq H; [discriminate|].
   cbn [wf_from] in H. cbn [text_of map]. fold (text_of r).
+  destruct esc.
+  { apply andb_true_iff in H as [Hv H]. rewrite (valid_not_brk c Hv).
+    rewrite pieces_cons. unfold step_q. cbn [fst snd]. unfold S. rewrite (IH q false Hq H). reflexivity. }
   destruct (q =? 0) eqn:Eq.
   - apply N.eqb_eq in Eq. subst q.
     destruct (c =? brk) eqn:Eb.
     + rewrite pieces_cons. change (step_q (0, false) 32) with (0, false, false). cbn [fst snd].
-      unfold S. rewrite (IH 0 (or_introl eq_refl) H). reflexivity.
+      unfold S. rewrite (IH 0 false (or_introl eq_refl) H). reflexivity.
     + apply andb_true_iff in H as [Hv H].
       rewrite pieces_cons. unfold step_q. cbn [N.eqb negb fst snd].
       destruct (c =? 59) eqn:E59.
@@ -258,28 +261,33 @@ Proof.
       * destruct ((c =? 39) || (c =? 34)) eqn:Equ; cbn [fst snd].
         -- assert (Hqs : quote_state c).
            { apply orb_true_iff in Equ as [E|E]; apply N.eqb_eq in E; subst c; [right; left|right; right]; reflexivity. }
-           unfold S. rewrite (IH c Hqs H). reflexivity.
-        -- unfold S. rewrite (IH 0 (or_introl eq_refl) H). reflexivity.
-  - apply andb_true_iff in H as [Hv H]. apply andb_true_iff in Hv as [Hv H92].
-    apply negb_true_iff in H92. rewrite (valid_not_brk c Hv).
-    rewrite pieces_cons. unfold step_q. rewrite Eq. cbn [negb]. rewrite H92.
-    destruct (c =? q) eqn:Ecq; cbn [fst snd]; unfold S.
-    + rewrite (IH 0 (or_introl eq_refl) H). reflexivity.
-    + rewrite (IH q Hq H). reflexivity.
+           unfold S. rewrite (IH c false Hqs H). reflexivity.
+        -- unfold S. rewrite (IH 0 false (or_introl eq_refl) H). reflexivity.
+  - apply andb_true_iff in H as [Hv H]. rewrite (valid_not_brk c Hv).
+    rewrite pieces_cons. unfold step_q. rewrite Eq. cbn [negb].
+    destruct (c =? 92) eqn:E92; cbn [fst snd]; unfold S.
+    + rewrite (IH q true Hq H). reflexivity.
+    + destruct (c =? q) eqn:Ecq; cbn [fst snd].
+      * rewrite (IH 0 false (or_introl eq_refl) H). reflexivity.
+      * rewrite (IH q false Hq H). reflexivity.
 Qed.
 
-Lemma wf_to_str m : forall q, wf_from q m = true -> to_str (text_of m) = text_of m.
+Lemma wf_to_str m : forall q esc, wf_from q esc m = true -> to_str (text_of m) = text_of m.
 Proof.
-  induction m as [|c r IH]; intros q H; [reflexivity|].
+  induction m as [|c r IH]; intros q esc H; [reflexivity|].
   cbn [wf_from] in H. cbn [text_of map to_str]. fold (text_of r). fold (to_str (text_of r)).
+  destruct esc.
+  { apply andb_true_iff in H as [Hv H]. rewrite (valid_not_brk c Hv), (valid_fix c Hv). f_equal.
+    eapply IH; exact H. }
   destruct (q =? 0).
   - destruct (c =? brk) eqn:Eb.
-    + rewrite (IH _ H). reflexivity.
+    + rewrite (IH _ _ H). reflexivity.
     + apply andb_true_iff in H as [Hv H]. rewrite (valid_fix c Hv). f_equal.
       destruct (c =? 59); [destruct r; [reflexivity|discriminate]|].
       destruct ((c =? 39) || (c =? 34)); eapply IH; exact H.
-  - apply andb_true_iff in H as [Hv H]. apply andb_true_iff in Hv as [Hv _].
+  - apply andb_true_iff in H as [Hv H].
     rewrite (valid_not_brk c Hv), (valid_fix c Hv). f_equal.
+    destruct (c =? 92); [eapply IH; exact H|].
     destruct (c =? q); eapply IH; exact H.
 Qed.
 
@@ -313,12 +321,12 @@ Lemma unit_then u x : wf_unit u = true ->
   complete (unit_text u ++ x) = complete x.
 Proof.
   intros H. apply andb_true_iff in H as [Hm Hs]. unfold wf_stmt in Hm.
-  pose proof (wf_pieces _ 0 (or_introl eq_refl) Hm) as Pm.
+  pose proof (wf_pieces _ 0 false (or_introl eq_refl) Hm) as Pm.
   destruct (sep_pieces _ Hs) as [Ps As].
   assert (Hsplit : split_statements (unit_text u) = ([normalise (fst u)], true)).
   { rewrite split_unfold. unfold P, T, S, unit_text. rewrite pieces_app. unfold S. fold q0 in Pm. rewrite Pm.
     cbn [fst snd]. rewrite Ps. unfold join. cbn [fst snd app map]. rewrite As.
-    unfold tstr, normalise. rewrite (wf_to_str _ _ Hm). reflexivity. }
+    unfold tstr, normalise. rewrite (wf_to_str _ _ _ Hm). reflexivity. }
   assert (Hc : complete (unit_text u) = true) by (unfold complete; rewrite Hsplit; reflexivity).
   destruct (split_after_complete _ x Hc) as [A B]. split; [|exact B].
   rewrite A. unfold pending at 1. rewrite Hsplit. reflexivity.
@@ -465,15 +473,18 @@ Proof.
   rewrite text_of_app, IH. unfold unit_keys, unit_text. rewrite text_of_app. reflexivity.
 Qed.
 
-Lemma wf_items m : forall q, wf_from q m = true -> forallb item_ok m = true.
+Lemma wf_items m : forall q esc, wf_from q esc m = true -> forallb item_ok m = true.
 Proof.
-  induction m as [|c r IH]; intros q H; [reflexivity|]. cbn [wf_from] in H. cbn [forallb]. unfold item_ok at 1.
+  induction m as [|c r IH]; intros q esc H; [reflexivity|]. cbn [wf_from] in H. cbn [forallb]. unfold item_ok at 1.
+  destruct esc.
+  { apply andb_true_iff in H as [Hv H]. rewrite Hv, orb_true_r. cbn [andb]. eapply IH; exact H. }
   destruct (q =? 0).
   - destruct (c =? brk); cbn [orb]; [eapply IH; exact H|].
     apply andb_true_iff in H as [Hv H]. rewrite Hv. cbn [andb].
     destruct (c =? 59); [destruct r; [reflexivity|discriminate]|].
     destruct ((c =? 39) || (c =? 34)); eapply IH; exact H.
-  - apply andb_true_iff in H as [Hv H]. apply andb_true_iff in Hv as [Hv _]. rewrite Hv, orb_true_r. cbn [andb].
+  - apply andb_true_iff in H as [Hv H]. rewrite Hv, orb_true_r. cbn [andb].
+    destruct (c =? 92); [eapply IH; exact H|].
     destruct (c =? q); eapply IH; exact H.
 Qed.
 
@@ -488,7 +499,7 @@ Proof.
   induction us as [|u r IH]; intros H; [reflexivity|]. cbn [forallb] in H. apply andb_true_iff in H as [Hu Hr].
   unfold script_keys in *. cbn [map concat]. rewrite forallb_app, (IH Hr), andb_true_r.
   unfold unit_keys. rewrite forallb_app. apply andb_true_iff in Hu as [Hm Hs].
-  rewrite (wf_items _ _ Hm), (sep_items _ Hs). reflexivity.
+  rewrite (wf_items _ _ _ Hm), (sep_items _ Hs). reflexivity.
 Qed.
 
 Lemma forallb_concat_parts (pcs : list (bool * list N)) :
@@ -525,39 +536,43 @@ Proof.
 Qed.
 
 (* ---- nothing is submitted before the terminating ';' has been entered ---- *)
-Lemma wf_prefix_open m : forall q p x, quote_state q -> wf_from q m = true -> m = p ++ x -> x <> [] ->
-  P (q, false) (text_of p) = [] /\ T (q, false) (text_of p) = text_of p.
+Lemma wf_prefix_open m : forall q esc p x, quote_state q -> wf_from q esc m = true -> m = p ++ x -> x <> [] ->
+  P (q, esc) (text_of p) = [] /\ T (q, esc) (text_of p) = text_of p.
 Proof.
-  induction m as [|c r IH]; intros q p x Hq H E Hx; [discriminate|].
+  induction m as [|c r IH]; intros q esc p x Hq H E Hx; [discriminate|].
   destruct p as [|c' p']; [split; reflexivity|]. cbn [app] in E. inversion E; subst c' r. clear E.
   cbn [wf_from] in H. cbn [text_of map]. fold (text_of p'). unfold P, T. rewrite pieces_cons.
-  assert (Hgo : forall q', quote_state q' -> wf_from q' (p' ++ x) = true ->
-            forall c2, (push c2 (fst (pieces (q', false) (text_of p')))) = ([], c2 :: text_of p')).
-  { intros q' Hq' Hw c2. destruct (IH q' p' x Hq' Hw eq_refl Hx) as [A B]. unfold P, T in A, B.
-    destruct (pieces (q', false) (text_of p')) as [[pp tt] ss]. cbn [fst snd] in *. subst. reflexivity. }
+  assert (Hgo : forall q' esc', quote_state q' -> wf_from q' esc' (p' ++ x) = true ->
+            forall c2, (push c2 (fst (pieces (q', esc') (text_of p')))) = ([], c2 :: text_of p')).
+  { intros q' esc' Hq' Hw c2. destruct (IH q' esc' p' x Hq' Hw eq_refl Hx) as [A B]. unfold P, T in A, B.
+    destruct (pieces (q', esc') (text_of p')) as [[pp tt] ss]. cbn [fst snd] in *. subst. reflexivity. }
+  destruct esc.
+  { apply andb_true_iff in H as [Hv H]. rewrite (valid_not_brk c Hv). unfold step_q. cbn [fst snd].
+    rewrite (Hgo q false Hq H). split; reflexivity. }
   destruct (q =? 0) eqn:Eq.
   - apply N.eqb_eq in Eq. subst q. destruct (c =? brk) eqn:Eb.
     + change (step_q (0, false) 32) with (0, false, false). cbn [fst snd].
-      rewrite (Hgo 0 (or_introl eq_refl) H). split; reflexivity.
+      rewrite (Hgo 0 false (or_introl eq_refl) H). split; reflexivity.
     + apply andb_true_iff in H as [Hv H]. unfold step_q. cbn [N.eqb negb fst snd].
       destruct (c =? 59) eqn:E59.
       * destruct (p' ++ x) eqn:Epx; [|discriminate]. apply app_eq_nil in Epx as [_ ->]. contradiction.
       * destruct ((c =? 39) || (c =? 34)) eqn:Equ; cbn [fst snd].
         -- assert (Hqs : quote_state c).
            { apply orb_true_iff in Equ as [E|E]; apply N.eqb_eq in E; subst c; [right; left|right; right]; reflexivity. }
-           rewrite (Hgo c Hqs H). split; reflexivity.
-        -- rewrite (Hgo 0 (or_introl eq_refl) H). split; reflexivity.
-  - apply andb_true_iff in H as [Hv H]. apply andb_true_iff in Hv as [Hv H92].
-    apply negb_true_iff in H92. rewrite (valid_not_brk c Hv).
-    unfold step_q. rewrite Eq. cbn [negb]. rewrite H92.
-    destruct (c =? q) eqn:Ecq; cbn [fst snd].
-    + rewrite (Hgo 0 (or_introl eq_refl) H). split; reflexivity.
-    + rewrite (Hgo q Hq H). split; reflexivity.
+           rewrite (Hgo c false Hqs H). split; reflexivity.
+        -- rewrite (Hgo 0 false (or_introl eq_refl) H). split; reflexivity.
+  - apply andb_true_iff in H as [Hv H]. rewrite (valid_not_brk c Hv).
+    unfold step_q. rewrite Eq. cbn [negb].
+    destruct (c =? 92) eqn:E92; cbn [fst snd].
+    + rewrite (Hgo q true Hq H). split; reflexivity.
+    + destruct (c =? q) eqn:Ecq; cbn [fst snd].
+      * rewrite (Hgo 0 false (or_introl eq_refl) H). split; reflexivity.
+      * rewrite (Hgo q false Hq H). split; reflexivity.
 Qed.
 
-Lemma wf_prefix_to_str m : forall q p x, wf_from q m = true -> m = p ++ x -> to_str (text_of p) = text_of p.
+Lemma wf_prefix_to_str m : forall q esc p x, wf_from q esc m = true -> m = p ++ x -> to_str (text_of p) = text_of p.
 Proof.
-  intros q p x H E. pose proof (wf_items m q H) as Hi. subst m. rewrite forallb_app in Hi.
+  intros q esc p x H E. pose proof (wf_items m q esc H) as Hi. subst m. rewrite forallb_app in Hi.
   apply andb_true_iff in Hi as [Hi _]. clear H. induction p as [|c r IH]; [reflexivity|].
   cbn [forallb] in Hi. apply andb_true_iff in Hi as [Hc Hr]. cbn [text_of map to_str]. fold (text_of r).
   fold (to_str (text_of r)). rewrite (IH Hr). f_equal. unfold item_ok in Hc. destruct (c =? brk); [reflexivity|].
@@ -570,13 +585,13 @@ Lemma incomplete_never_submits b m p x :
   (all_space (text_of p) = false -> complete (b ++ text_of p) = false).
 Proof.
   intros Hb Hm E Hx. unfold wf_stmt in Hm.
-  destruct (wf_prefix_open m 0 p x (or_introl eq_refl) Hm E Hx) as [A B].
+  destruct (wf_prefix_open m 0 false p x (or_introl eq_refl) Hm E Hx) as [A B].
   destruct (split_after_complete b (text_of p) Hb) as [L1 L2]. rewrite L1, L2.
   change (0, false) with q0 in A, B.
   assert (Hp : pending (text_of p) = []) by (unfold pending; rewrite split_unfold; cbn [fst]; rewrite A; reflexivity).
   rewrite Hp, app_nil_r. split; [reflexivity|]. intros Hs.
   unfold complete. rewrite split_unfold. cbn [snd]. rewrite B.
-  rewrite (wf_prefix_to_str m 0 p x Hm E), Hs. apply andb_false_r.
+  rewrite (wf_prefix_to_str m 0 false p x Hm E), Hs. apply andb_false_r.
 Qed.
 
 (* ------------------------------------------------------------------------------------ *)
@@ -613,15 +628,22 @@ Proof.
   - destruct (c =? 92); [reflexivity|]. destruct (c =? q); reflexivity.
 Qed.
 
-Lemma lits_text m : forall q, quote_state q -> wf_from q m = true ->
-  lits (q, false) (text_of m) = lits (q, false) (nobrk m).
+Lemma lits_text m : forall q esc, quote_state q -> (esc = true -> q <> 0) -> wf_from q esc m = true ->
+  lits (q, esc) (text_of m) = lits (q, esc) (nobrk m).
 Proof.
-  induction m as [|c r IH]; intros q Hq H; [discriminate|].
-  cbn [wf_from] in H. destruct (q =? 0) eqn:Eq.
+  induction m as [|c r IH]; intros q esc Hq He H; [discriminate|].
+  cbn [wf_from] in H.
+  destruct esc.
+  { apply andb_true_iff in H as [Hv H]. specialize (He eq_refl). apply N.eqb_neq in He.
+    rewrite (text_valid c r Hv), (nobrk_valid c r Hv), !lits_cons.
+    change (step_q (q, true) c) with (q, false, false). cbn [fst]. rewrite He.
+    rewrite (IH q false Hq (fun X => False_ind _ (Bool.diff_false_true X)) H). reflexivity. }
+  assert (Hf : forall q' : N, false = true -> q' <> 0) by (intros q' X; discriminate X).
+  destruct (q =? 0) eqn:Eq.
   - apply N.eqb_eq in Eq. subst q. destruct (c =? brk) eqn:Eb.
     + apply N.eqb_eq in Eb. subst c. rewrite text_brk, nobrk_brk, lits_cons.
       change (step_q (0, false) 32) with (0, false, false). cbn [fst snd N.eqb].
-      apply IH; [left; reflexivity|exact H].
+      apply IH; [left; reflexivity|apply Hf|exact H].
     + apply andb_true_iff in H as [Hv H]. rewrite (text_valid c r Hv), (nobrk_valid c r Hv), !lits_cons.
       rewrite (step_q_wf 0 c Hv). cbn [N.eqb].
       destruct (c =? 59) eqn:E59.
@@ -629,13 +651,15 @@ Proof.
       * destruct ((c =? 39) || (c =? 34)) eqn:Equ.
         -- assert (Hqs : quote_state c).
            { apply orb_true_iff in Equ as [E|E]; apply N.eqb_eq in E; subst c; [right; left|right; right]; reflexivity. }
-           rewrite (IH c Hqs H). reflexivity.
-        -- rewrite (IH 0 (or_introl eq_refl) H). reflexivity.
-  - apply andb_true_iff in H as [Hv H]. apply andb_true_iff in Hv as [Hv H92]. apply negb_true_iff in H92.
-    rewrite (text_valid c r Hv), (nobrk_valid c r Hv), !lits_cons, (step_q_wf q c Hv), Eq, H92.
-    destruct (c =? q).
-    + rewrite (IH 0 (or_introl eq_refl) H). reflexivity.
-    + rewrite (IH q Hq H). reflexivity.
+           rewrite (IH c false Hqs (Hf c) H). reflexivity.
+        -- rewrite (IH 0 false (or_introl eq_refl) (Hf 0) H). reflexivity.
+  - apply andb_true_iff in H as [Hv H].
+    rewrite (text_valid c r Hv), (nobrk_valid c r Hv), !lits_cons, (step_q_wf q c Hv), Eq.
+    destruct (c =? 92).
+    + rewrite (IH q true Hq (fun _ => proj1 (N.eqb_neq q 0) Eq) H). reflexivity.
+    + destruct (c =? q).
+      * rewrite (IH 0 false (or_introl eq_refl) (Hf 0) H). reflexivity.
+      * rewrite (IH q false Hq (Hf q) H). reflexivity.
 Qed.
 
 Lemma space_step c : is_space c = true -> step_q q0 c = (q0, false).
@@ -650,18 +674,21 @@ Proof.
   rewrite lits_cons, (space_step c E). cbn [fst N.eqb q0]. exact IH.
 Qed.
 
-Lemma wf_ends m : forall q, wf_from q m = true -> exists a, text_of m = a ++ [59].
+Lemma wf_ends m : forall q esc, wf_from q esc m = true -> exists a, text_of m = a ++ [59].
 Proof.
-  induction m as [|c r IH]; intros q H; [discriminate|]. cbn [wf_from] in H.
-  assert (Hr : forall q', wf_from q' r = true -> exists a, text_of (c :: r) = a ++ [59]).
-  { intros q' Hw. destruct (IH q' Hw) as [a Ha]. exists ((if c =? brk then 32 else c) :: a).
+  induction m as [|c r IH]; intros q esc H; [discriminate|]. cbn [wf_from] in H.
+  assert (Hr : forall q' esc', wf_from q' esc' r = true -> exists a, text_of (c :: r) = a ++ [59]).
+  { intros q' esc' Hw. destruct (IH q' esc' Hw) as [a Ha]. exists ((if c =? brk then 32 else c) :: a).
     cbn [text_of map]. fold (text_of r). rewrite Ha. reflexivity. }
+  destruct esc.
+  { apply andb_true_iff in H as [_ H]. eapply Hr; exact H. }
   destruct (q =? 0).
   - destruct (c =? brk) eqn:Eb; [eapply Hr; exact H|].
     apply andb_true_iff in H as [Hv H]. destruct (c =? 59) eqn:E59.
     + destruct r; [|discriminate]. apply N.eqb_eq in E59. subst c. exists []. reflexivity.
     + destruct ((c =? 39) || (c =? 34)); eapply Hr; exact H.
-  - apply andb_true_iff in H as [_ H]. destruct (c =? q); eapply Hr; exact H.
+  - apply andb_true_iff in H as [_ H]. destruct (c =? 92); [eapply Hr; exact H|].
+    destruct (c =? q); eapply Hr; exact H.
 Qed.
 
 Lemma trim_left_keeps_end a : exists a', trim_left (a ++ [59]) = a' ++ [59].
@@ -679,8 +706,8 @@ Qed.
 
 Lemma literal_intact m : wf_stmt m = true -> literals (normalise m) = literals (nobrk m).
 Proof.
-  intros H. unfold wf_stmt in H. unfold literals, normalise. destruct (wf_ends m 0 H) as [a Ha].
-  rewrite Ha, trim_ends_semicolon, lits_trim_left, <- Ha. apply (lits_text m 0 (or_introl eq_refl) H).
+  intros H. unfold wf_stmt in H. unfold literals, normalise. destruct (wf_ends m 0 false H) as [a Ha].
+  rewrite Ha, trim_ends_semicolon, lits_trim_left, <- Ha. apply (lits_text m 0 false (or_introl eq_refl) (fun X => False_ind _ (Bool.diff_false_true X)) H).
 Qed.
 
 (* ---- words ---- *)
@@ -694,42 +721,52 @@ Lemma quote_not_space q : quote_state q -> q <> 0 -> is_space q = false.
 Proof. intros [-> | [-> | ->]] H; [contradiction|reflexivity|reflexivity]. Qed.
 
 Lemma wds_text m :
-  (forall q inw prev, quote_state q -> wf_from q m = true -> breaks_at_spaces prev m = true ->
+  (forall q esc inw prev, quote_state q -> (esc = true -> q <> 0) -> wf_from q esc m = true ->
+     breaks_at_spaces prev m = true ->
      (q = 0 -> prev = negb inw) -> (q <> 0 -> inw = true) ->
-     wds (q, false) inw (text_of m) = wds (q, false) inw (nobrk m)) /\
-  (wf_from 0 m = true -> next_sp m = true -> breaks_at_spaces false m = true ->
+     wds (q, esc) inw (text_of m) = wds (q, esc) inw (nobrk m)) /\
+  (wf_from 0 false m = true -> next_sp m = true -> breaks_at_spaces false m = true ->
      [] :: wds q0 false (text_of m) = wds q0 true (nobrk m)).
 Proof.
+  assert (Hf : forall q' : N, false = true -> q' <> 0) by (intros q' X; discriminate X).
   induction m as [|c r [IHA IHB]]; [split; intros; discriminate|]. split.
-  - intros q inw prev Hq H Hb Hp Hi. cbn [wf_from] in H. cbn [breaks_at_spaces] in Hb.
+  - intros q esc inw prev Hq He H Hb Hp Hi. cbn [wf_from] in H. cbn [breaks_at_spaces] in Hb.
+    destruct esc.
+    { apply andb_true_iff in H as [Hv H]. specialize (He eq_refl). rewrite (valid_not_brk c Hv) in Hb.
+      rewrite (text_valid c r Hv), (nobrk_valid c r Hv), !wds_cons.
+      change (step_q (q, true) c) with (q, false, false). cbn [fst].
+      apply N.eqb_neq in He. rewrite He. cbn [andb]. apply N.eqb_neq in He.
+      rewrite (IHA q false true (is_space c) Hq (Hf q) H Hb); [reflexivity|intros X; contradiction|reflexivity]. }
     destruct (q =? 0) eqn:Eq.
     + apply N.eqb_eq in Eq. subst q. specialize (Hp eq_refl). destruct (c =? brk) eqn:Eb.
       * apply N.eqb_eq in Eb. subst c. rewrite text_brk, nobrk_brk, wds_cons.
         change (step_q (0, false) 32) with (0, false, false). cbn [fst N.eqb andb]. change (is_space 32) with true. cbn iota.
         apply andb_true_iff in Hb as [Hn Hb]. destruct inw; cbn [negb] in Hp; subst prev.
         -- cbn [orb] in Hn. cbn [app]. apply IHB; assumption.
-        -- cbn [app]. apply (IHA 0 false true (or_introl eq_refl) H Hb); [reflexivity|intros X; contradiction].
+        -- cbn [app]. apply (IHA 0 false false true (or_introl eq_refl) (Hf 0) H Hb); [reflexivity|intros X; contradiction].
       * apply andb_true_iff in H as [Hv H]. rewrite (text_valid c r Hv), (nobrk_valid c r Hv), !wds_cons.
         rewrite (step_q_wf 0 c Hv). cbn [fst N.eqb andb].
         destruct (is_space c) eqn:Es.
         -- destruct (space_not_special c Es) as (E1 & E2 & E3). rewrite E1, E2 in *. rewrite E3 in H. cbn [orb] in *.
-           rewrite (IHA 0 false true (or_introl eq_refl) H Hb); [reflexivity|reflexivity|intros X; contradiction].
+           rewrite (IHA 0 false false true (or_introl eq_refl) (Hf 0) H Hb); [reflexivity|reflexivity|intros X; contradiction].
         -- destruct (c =? 59) eqn:E59.
            ++ destruct r; [reflexivity|discriminate].
            ++ destruct ((c =? 39) || (c =? 34)) eqn:Equ.
               ** assert (Hqs : quote_state c).
                  { apply orb_true_iff in Equ as [E|E]; apply N.eqb_eq in E; subst c; [right; left|right; right]; reflexivity. }
                  assert (Hc0 : c <> 0) by (intros ->; discriminate Hv).
-                 rewrite (IHA c true false Hqs H Hb); [reflexivity|intros X; contradiction|reflexivity].
-              ** rewrite (IHA 0 true false (or_introl eq_refl) H Hb); [reflexivity|reflexivity|intros X; contradiction].
-    + apply andb_true_iff in H as [Hv H]. apply andb_true_iff in Hv as [Hv H92]. apply negb_true_iff in H92.
+                 rewrite (IHA c false true false Hqs (Hf c) H Hb); [reflexivity|intros X; contradiction|reflexivity].
+              ** rewrite (IHA 0 false true false (or_introl eq_refl) (Hf 0) H Hb); [reflexivity|reflexivity|intros X; contradiction].
+    + apply andb_true_iff in H as [Hv H].
       rewrite (valid_not_brk c Hv) in Hb.
-      rewrite (text_valid c r Hv), (nobrk_valid c r Hv), !wds_cons, (step_q_wf q c Hv), Eq, H92. cbn [fst andb].
+      rewrite (text_valid c r Hv), (nobrk_valid c r Hv), !wds_cons, (step_q_wf q c Hv), Eq. cbn [fst andb].
       rewrite Eq. cbn [andb]. apply N.eqb_neq in Eq.
-      destruct (c =? q) eqn:Ecq.
-      * apply N.eqb_eq in Ecq. subst c. rewrite (quote_not_space q Hq Eq) in Hb.
-        rewrite (IHA 0 true false (or_introl eq_refl) H Hb); [reflexivity|reflexivity|intros X; contradiction].
-      * rewrite (IHA q true (is_space c) Hq H Hb); [reflexivity|intros X; contradiction|reflexivity].
+      destruct (c =? 92) eqn:E92.
+      * rewrite (IHA q true true (is_space c) Hq (fun _ => Eq) H Hb); [reflexivity|intros X; contradiction|reflexivity].
+      * destruct (c =? q) eqn:Ecq.
+        -- apply N.eqb_eq in Ecq. subst c. rewrite (quote_not_space q Hq Eq) in Hb.
+           rewrite (IHA 0 false true false (or_introl eq_refl) (Hf 0) H Hb); [reflexivity|reflexivity|intros X; contradiction].
+        -- rewrite (IHA q false true (is_space c) Hq (Hf q) H Hb); [reflexivity|intros X; contradiction|reflexivity].
   - intros H Hn Hb. cbn [wf_from N.eqb] in H. cbn [next_sp] in Hn. cbn [breaks_at_spaces] in Hb.
     destruct (c =? brk) eqn:Eb.
     + apply N.eqb_eq in Eb. subst c. rewrite text_brk, nobrk_brk, wds_cons.
@@ -738,7 +775,7 @@ Proof.
     + apply andb_true_iff in H as [Hv H]. rewrite (text_valid c r Hv), (nobrk_valid c r Hv), !wds_cons.
       rewrite (space_step c Hn). cbn [fst N.eqb andb q0]. rewrite Hn. cbn [app].
       destruct (space_not_special c Hn) as (E1 & E2 & E3). rewrite E1, E2, E3 in H. cbn [orb] in H. rewrite Hn in Hb.
-      f_equal. apply (IHA 0 false true (or_introl eq_refl) H Hb); [reflexivity|intros X; contradiction].
+      f_equal. apply (IHA 0 false false true (or_introl eq_refl) (Hf 0) H Hb); [reflexivity|intros X; contradiction].
 Qed.
 
 Lemma wds_trim_left t : wds q0 false (trim_left t) = wds q0 false t.
@@ -750,10 +787,24 @@ Qed.
 Lemma words_intact m : wf_stmt m = true -> breaks_at_spaces true m = true ->
   words (normalise m) = words (nobrk m).
 Proof.
-  intros H Hb. unfold wf_stmt in H. unfold words, normalise. destruct (wf_ends m 0 H) as [a Ha].
+  intros H Hb. unfold wf_stmt in H. unfold words, normalise. destruct (wf_ends m 0 false H) as [a Ha].
   rewrite Ha, trim_ends_semicolon, wds_trim_left, <- Ha.
-  apply (proj1 (wds_text m) 0 false true (or_introl eq_refl) H Hb); [reflexivity|intros X; contradiction].
+  apply (proj1 (wds_text m) 0 false false true (or_introl eq_refl) (fun X => False_ind _ (Bool.diff_false_true X)) H Hb); [reflexivity|intros X; contradiction].
 Qed.
+
+(* ---- the former hypothesis (no backslash inside literals) is a special case ---- *)
+Lemma wf_plain_from_extends m : forall q, wf_plain_from q m = true -> wf_from q false m = true.
+Proof.
+  induction m as [|c r IH]; intros q H; [discriminate|]. cbn [wf_plain_from] in H. cbn [wf_from].
+  destruct (q =? 0).
+  - destruct (c =? brk); [apply IH, H|]. apply andb_true_iff in H as [Hv H]. rewrite Hv. cbn [andb].
+    destruct (c =? 59); [exact H|]. destruct ((c =? 39) || (c =? 34)); apply IH, H.
+  - apply andb_true_iff in H as [Hv H]. apply andb_true_iff in Hv as [Hv H92]. apply negb_true_iff in H92.
+    rewrite Hv, H92. cbn [andb]. destruct (c =? q); apply IH, H.
+Qed.
+
+Lemma wf_plain_extends m : wf_plain_stmt m = true -> wf_stmt m = true.
+Proof. apply wf_plain_from_extends. Qed.
 
 (* ------------------------------------------------------------------------------------ *)
 (* bytesToKey on the byte encodings of the keys of an ASCII delivery                      *)
